@@ -270,3 +270,14 @@ pub fn fallocate(fd: &File, mode: FallocateFlags, off: u64, len: u64, Tracked(w)
             Err(_) => final(w).faults == old(w).faults + 1 && final(w).files == old(w).files && final(w).trace == old(w).trace,
         },
 { unimplemented!() }
+
+/// std::thread: only what extracted code may touch outside log macros (the spawn/join plumbing is rewritten, see R9)
+pub mod thread {
+    use super::*;
+    #[verifier::external_body] pub struct Thread { x: u8 }
+    #[verifier::external_body] #[derive(Clone, Copy)] pub struct ThreadId { x: u8 }
+    #[verifier::external_body] pub fn current() -> (r: Thread) { unimplemented!() }
+    impl Thread {
+        #[verifier::external_body] pub fn id(&self) -> (r: ThreadId) { unimplemented!() }
+    }
+}
